@@ -237,7 +237,7 @@ def enumerate_cases(tier: str):
             yield {"in_prefix": "gw-out", "out_prefix": "gw-in", "connect_fault": "none",
                    "ops": [["deliver", [1, 255, 0, 0, 17, "2.3.2"], [qos, retain]], ["deliver", [1, 1, 1, 0, 2, "1"], [qos, retain]], ["deliver", [0, 255, 3, 0, 9, "x"], [0, False]], ["read"], ["read"], ["read"]]}
     # payload characters that are line boundaries for str.splitlines but not for MQTT
-    for text in ("a\x0bb", "a\x0cb", "x\x1cy", "x\x1dy", "x\x1ey", "p\x85q", "p\u2028q", "p\u2029q", "a\rb", "1;2\x0b3;4"):
+    for text in ("a\x0bb", "a\x0cb", "x\x1cy", "x\x1dy", "x\x1ey", "p\x85q", "p\u2028q", "p\u2029q", "a\rb", "1;2\x0b3;4", "\ufeff21.5", "\ufeff", "x\ufeffy", "\ufeff;\ufeff", "\x00", "\x00x", "\\n", "%0A"):
         yield {"in_prefix": "in", "out_prefix": "out", "connect_fault": "none", "ops": [["echo", [7, 1, 1, 0, 47, text]], ["write", [7, 255, 3, 1, 9, text]], ["deliver", [7, 1, 1, 0, 47, text]], ["read"]]}
     # topics with an empty or odd level: the line read back is spelled by the levels, nothing may shift between payload and header
     for pos in range(5):
